@@ -2,7 +2,8 @@
 CFG = {
  'translator': True,
     "count": {"quick": 150000, "thorough": 8000000},
-    "lean_files": ['GeoModel/Gen/Kernel.lean', 'GeoProofs/Lemmas/GenKernel.lean', "GeoModel/Orient.lean", "GeoModel/Segment.lean", "GeoModel/F64.lean", "GeoModel/Ops/C03.lean",
+    "lean_files": ['GeoModel/Gen/Kernel.lean', 'GeoProofs/Lemmas/GenKernel.lean', 'GeoModel/TRANPrelude.lean', 'GeoModel/Gen/CoordPosGen.lean',
+                   'GeoModel/Gen/AreaGen.lean', 'GeoProofs/Lemmas/TRANCoordPos.lean', 'GeoProofs/Lemmas/TRANArea.lean', "GeoModel/Orient.lean", "GeoModel/Segment.lean", "GeoModel/F64.lean", "GeoModel/Ops/C03.lean",
                    "GeoProofs/Lemmas/SegmentSpec.lean", "GeoProofs/Lemmas/RingSpec.lean"],
     "rule": "adversarial f64 inputs: exactly collinear dyadic triples with one coordinate nudged by 0-3 ulps at magnitudes 2^-20..2^58, "
             "the classic 'tiny offsets near a large base point' pattern, rings scaled to 2^0..2^45 with query points on / one ulp off an edge; "
@@ -29,7 +30,10 @@ MANIFEST = {
             "point-set meaning (rectRect_iff, triCoord_iff_mem, triContainsCoord_iff_interior). Not proved: Inside/Outside of the winding loop against a "
             "point-set definition of the polygon interior. Correspondence: orient2d (f64, i64), "
             "point-on-segment, point-in-ring, point-in-triangle on near-degenerate inputs; the evidence counts the cases on which a naive f64 evaluation "
-            "would differ, showing that the stream separates the robust kernel from the naive one.",
+            "would differ, showing that the stream separates the robust kernel from the naive one. Translator tie (TRAN, pointLocation_eq_source): "
+            "coord_pos_relative_to_ring, Triangle::calculate_coordinate_position and Triangle::intersects(Coord) are regenerated as whole functions "
+            "(loop with early return; unrolled to_lines().map with a flag set inside the closure; sort + windows) and proved equal to ringPos, "
+            "calcTriangle, triCoord.",
     "note": "Trusted: Lean kernel + audited axioms; harness/generators (sampling); the `robust` crate is compared, not proved. winding_order, "
             "segment-segment and line_intersection exactness are exercised by the C05 and C11 checks on the same kernel model. Known finding K10 (underflow range).",
 }
